@@ -360,6 +360,89 @@ def add_frame(U):
          spec="    ensures true,      // total for every byte sequence; allocates at most max_size bytes (precondition of verif_alloc)\n")
 
 
+PRELUDE_SPAWN = r"""
+// ---------------- stream id allocation: Mux::verify bounds the stream counts, spawn_streams stays within the 13-bit id space ----------------
+// R-type: BTreeMap<CapabilityId, Arc<StreamQueue>> as the ordered list of (capability, max_streams) (A1); HashMap<CapabilityId, u32>
+impl QueueMap {
+    pub uninterp spec fn caps(&self) -> Seq<(u64, u32)>;
+    #[verifier::external_body] pub fn len(&self) -> (r: usize) ensures r == self.caps().len() { unimplemented!() }
+    #[verifier::external_body] pub fn cap_at(&self, i: usize) -> (r: (&u64, QueueRef)) requires i < self.caps().len()
+        ensures *r.0 == self.caps()[i as int].0, r.1.max_streams == self.caps()[i as int].1 { unimplemented!() }
+    // R-chain: `saturating_sum(self.<map>.values().map(|cfg| cfg.max_streams))`, saturating_sum = fold(0, saturating_add)
+    #[verifier::external_body] pub fn sat_sum_max_streams(&self) -> (r: u32)
+        ensures r as int == (if cap_sum(self.caps(), self.caps().len() as int) <= u32::MAX { cap_sum(self.caps(), self.caps().len() as int) } else { u32::MAX as int })
+    { unimplemented!() }
+}
+pub struct QueueRef { pub max_streams: u32 }                           // &Arc<StreamQueue>: only max_streams is read
+#[verifier::external_body] pub struct PeerStreams { _p: u8 }           // HashMap<CapabilityId, u32> sent by the PEER (any values)
+impl PeerStreams { #[verifier::external_body] pub fn get(&self, k: &u64) -> (r: Option<&u32>) { unimplemented!() } }
+pub struct MuxHandshake { pub accept_max_streams: PeerStreams, pub connect_max_streams: PeerStreams }
+pub open spec fn cap_sum(c: Seq<(u64, u32)>, k: int) -> int decreases k { if k <= 0 { 0 } else { cap_sum(c, k - 1) + c[k - 1].1 } }
+pub proof fn lemma_cap_sum_nonneg(c: Seq<(u64, u32)>, k: int)
+    requires 0 <= k <= c.len(), ensures 0 <= cap_sum(c, k), decreases k
+{ if k > 0 { lemma_cap_sum_nonneg(c, k - 1); } }
+pub proof fn lemma_cap_sum_mono(c: Seq<(u64, u32)>, i: int, k: int)
+    requires 0 <= i <= k <= c.len(), ensures 0 <= cap_sum(c, i) <= cap_sum(c, k), decreases k - i
+{ lemma_cap_sum_nonneg(c, i); if i < k { lemma_cap_sum_mono(c, i, k - 1); } }
+#[verifier::external_body] pub struct Scope { _p: u8 }
+#[verifier::external_body] pub struct FrameReceiverEnd { _p: u8 }
+#[verifier::external_body] pub fn channel_unbounded() -> (FrameSender, FrameReceiverEnd) { unimplemented!() }
+// R-stub: `let stream = ReusableStream { .. }; scope.spawn_bg(stream.run(ctx));` (the per-stream task, concurrent, not under contract)
+#[verifier::external_body] pub fn verif_spawn_stream(scope: &Scope, stream_id: StreamId, stream_kind: StreamKind, read_recv: FrameReceiverEnd) { unimplemented!() }
+pub const MAX_STREAM_COUNT_SPEC: u32 = 8192;
+impl Mux {
+    pub open spec fn verified(&self) -> bool {
+        cap_sum(self.accept.caps(), self.accept.caps().len() as int) <= 8192 && cap_sum(self.connect.caps(), self.connect.caps().len() as int) <= 8192
+    }
+}
+"""
+
+
+def add_spawn(U):
+    U.raw(PRELUDE_SPAWN, label="prelude spawn_streams")
+    U.item(F_C, "const MAX_STREAM_COUNT", subs=[("(StreamId::MASK + 1) as u32", "8192   /* R-std: (StreamId::MASK + 1) as u32, StreamId::MASK = 0x1FFF */")])
+    U.fn(F_M, "impl Mux :: fn verify", wrap="impl Mux", ret="r", props=["C14", "C10"],
+         header_subs=[("anyhow::Result<()>", "Result<(), AnyhowError>")],
+         subs=[("saturating_sum(self.accept.values().map(|cfg| cfg.max_streams))", "self.accept.sat_sum_max_streams()   /* R-chain */"),
+               ("saturating_sum(self.connect.values().map(|cfg| cfg.max_streams))", "self.connect.sat_sum_max_streams()   /* R-chain */")],
+         spec="""
+    // an accepted configuration asks for at most 2^13 streams per direction (the id space of the header)
+    ensures r.is_ok() ==> self.verified(),
+""")
+    U.fn(F_M, "impl Mux :: fn spawn_streams", wrap="impl Mux", ret="streams_out", props=["C14", "C10"],
+         header_subs=[("<'env>", ""), ("&'env ctx::Ctx", "&Ctx"), ("&scope::Scope<'env, RunError>", "&Scope"), ("&Handshake", "&MuxHandshake"),
+                      ("write_send: &channel::Sender<WriteCommand>,", ""), ("flush: &Arc<sync::Notify>,", ""),
+                      ("Vec<channel::UnboundedSender<Frame>>", "Vec<FrameSender>")],
+         subs=[("vec![]", "Vec::new()   /* R-std */"),
+               ("_ => unreachable!(\"bad StreamKind\"),", "_ => { assert(false);   /* R-dbg: unreachable! as proof obligation */ (&self.accept, &handshake.connect_max_streams) }"),
+               ("std::cmp::min(", "verif_min_u32(   /* R-std */", None), ("std::cmp::max(", "verif_max_u32(   /* R-std */", None),
+               ("*peer.get(cap).unwrap_or(&0)", "verif_deref_or_zero(peer.get(cap))   /* R-std */"),
+               ("channel::unbounded()", "channel_unbounded()"),
+               ("streams.len() as u16", "verif_usize_to_u16(streams.len())   /* R-cast: must not truncate */")],
+         regions=[("let stream = ReusableStream {", "scope.spawn_bg(stream.run(ctx));", "verif_spawn_stream(scope, stream_id, stream_kind, read_recv);   /* R-stub */")],
+         index_loops={0: dict(prefix="for (cap, queue) in queues", len="queues.len()", spec_len="queues.caps().len()", at="queues.cap_at({i})", pat="(cap, queue)",
+                              inv="""        {i} <= queues.caps().len(), streams@.len() <= cap_sum(queues.caps(), {i} as int),
+        cap_sum(queues.caps(), queues.caps().len() as int) <= 8192,""",
+                              body_start="proof { lemma_cap_sum_mono(queues.caps(), {i} as int, queues.caps().len() as int); }")},
+         loops={1: dict(prefix="for _ in 0..max_streams", iter="verif_it", inv="""
+            verif_i0 >= 1, verif_i0 <= queues.caps().len(), max_streams <= queues.caps()[verif_i0 - 1].1,
+            streams@.len() <= cap_sum(queues.caps(), verif_i0 - 1) + verif_it.index@,
+            cap_sum(queues.caps(), verif_i0 as int) <= 8192,
+""")},
+         spec="""
+    requires self.verified(),      // established by Mux::verify() at the start of Mux::run
+             stream_kind == StreamKind::ACCEPT || stream_kind == StreamKind::CONNECT,
+    // whatever stream counts the PEER announces: every id fits the 13-bit field (StreamId::new's assert!) and `as u16` is exact
+    ensures streams_out@.len() <= 8192,
+""")
+    U.raw("""
+#[verifier::external_body] pub fn verif_min_u32(a: u32, b: u32) -> (r: u32) ensures r == (if a <= b { a } else { b }) { std::cmp::min(a, b) }   // A1 (R-std)
+#[verifier::external_body] pub fn verif_max_u32(a: u32, b: u32) -> (r: u32) ensures r == (if a >= b { a } else { b }) { std::cmp::max(a, b) }   // A1 (R-std)
+#[verifier::external_body] pub fn verif_deref_or_zero(o: Option<&u32>) -> (r: u32) ensures o matches Some(v) ==> r == *v, o.is_none() ==> r == 0 { *o.unwrap_or(&0) }   // A1 (R-std)
+#[verifier::external_body] pub fn verif_usize_to_u16(n: usize) -> (r: u16) requires n <= u16::MAX ensures r == n { n as u16 }
+""", label="std wrappers spawn")
+
+
 def build(repo):
     U = Unit("mux", ["C14"], desc="stream multiplexer", uses="use std::sync::Arc;", crate_attrs="#![feature(allocator_api)]")
     U.repo = repo
@@ -367,4 +450,5 @@ def build(repo):
     add_dispatch(U)
     add_streams(U)
     add_frame(U)
+    add_spawn(U)
     return U
